@@ -87,6 +87,30 @@ func deepTexts(n int) []string {
 	return out
 }
 
+// quoteTexts: a double-quoted string that opens at column q (pushed right by blanks, by a long
+// keyword, or by nesting) whose continuation lines are indented by i blanks, for every q up to 140
+// and i around q, 0 and beyond (two sizes at once: where the string opens and how far it is indented).
+func quoteTexts(q int) []string {
+	var out []string
+	for _, i := range []int{0, 1, q - 2, q - 1, q, q + 1, q + 2, q + 3, q + 9, 2 * q} {
+		if i < 0 {
+			continue
+		}
+		ind := strings.Repeat(" ", i)
+		pad := strings.Repeat(" ", q)
+		out = append(out,
+			pad+"k \"first\n"+ind+"second\n"+ind+"  third\";",
+			"k"+strings.Repeat("x", q)+" \"first\n"+ind+"second\";",
+			pad+"k 'a' + \"first\n"+ind+"second\";",
+		)
+		if q%8 == 0 {
+			tabs := strings.Repeat("\t", q/8)
+			out = append(out, tabs+"k \"first\n"+ind+"second\n"+tabs+"   third\";")
+		}
+	}
+	return out
+}
+
 func run(c *core.Ctx) {
 	if c.Shard == "deep" {
 		sizes := []int{}
@@ -94,9 +118,13 @@ func run(c *core.Ctx) {
 			sizes = append(sizes, n)
 		}
 		sizes = append(sizes, 511, 512, 513, 1023, 1024, 1025)
-		c.Res.Bound = "nesting depth 1..300, 511..513, 1023..1025 in 13 layouts; arguments of n and 37 n bytes; n statements of one kind"
+		c.Res.Bound = "nesting depth 1..300, 511..513, 1023..1025 in 13 layouts; arguments of n and 37 n bytes; n statements of one kind; multi-line strings opening at column 1..140 with continuation lines indented around that column"
 		for _, n := range sizes {
-			for _, text := range deepTexts(n) {
+			texts := deepTexts(n)
+			if n <= 140 {
+				texts = append(texts, quoteTexts(n)...)
+			}
+			for _, text := range texts {
 				if c.Expired() {
 					return
 				}
